@@ -1264,6 +1264,11 @@ func FoldBinaryOperator(loc logger.Loc, e *EBinary) Expr {
 
 	case BinOpPow:
 		if left, right, ok := extractNumericValues(e.Left, e.Right); ok {
+			// Go's "math.Pow" returns 1 for "Pow(1, y)" with any "y" (even NaN) and
+			// for "Pow(-1, ±Inf)", but JavaScript's "**" evaluates those to NaN
+			if math.IsNaN(right) || (math.Abs(left) == 1 && math.IsInf(right, 0)) {
+				return Expr{Loc: loc, Data: &ENumber{Value: math.NaN()}}
+			}
 			return Expr{Loc: loc, Data: &ENumber{Value: math.Pow(left, right)}}
 		}
 
